@@ -383,11 +383,26 @@ fn apply(ctx: &Ctx, m: &Model, n: &Node, act: Act) -> Option<Node> {
                 // rewind with the deck running: the deck keeps running and what it plays from here on
                 // must be the whole tape from its first block and nothing else. If the tape is exactly
                 // a fresh playing tape the search goes on from there; any other state is judged by
-                // what it sounds like to the end of the tape (silence before the first block is
-                // fine, material of the interrupted block is not) and the search stops there.
+                // what it sounds like to the end of the tape (the first edge must come within one
+                // pilot pulse, no material of the interrupted block or pause may be played) and the search stops there.
                 let mut fresh = new_tap(&m.chain.image);
                 fresh.play();
                 if tap_key_noprev(&x.tap) != tap_key_noprev(&fresh) {
+                    // cheap part first, for every such state: "returns the position to the start" — a
+                    // running deck must reach the first pilot edge no later than one pilot pulse
+                    // from now (a fresh playing tape flips at once); the rest of an interrupted pause
+                    // or pulse is not the start
+                    {
+                        let (head, _) = listen(&x.tap, PILOT + TOL + 32);
+                        if head.len() < 2 {
+                            ctx.violation(
+                                &format!("C12:rewind-while-playing:{}:silence-before-the-first-block", m.pos_class(n.deck.pos)),
+                                &format!("tape {}: after [{}] (rewind issued while the deck is playing) no edge follows within one pilot pulse ({} T): the deck is not at the start of the tape but still inside the interrupted pause or pulse (state {:?}, {} T pending)", m.name, trace_str(&x.trace), PILOT + TOL + 32, x.tap.verif_state().state, x.tap.verif_state().delay),
+                                hist,
+                            );
+                            return None;
+                        }
+                    }
                     // listening to a whole tape costs millions of steps: the first PROBE_CAP such states
                     // are judged, the rest is counted (on a tree where rewind restarts cleanly there are none)
                     if PROBES.fetch_add(1, std::sync::atomic::Ordering::Relaxed) >= PROBE_CAP {
